@@ -36,7 +36,10 @@ class ConnectionHandler:
             self.buffer.process(self.message_from_server)
 
     def message_from_server(self, message: IndiMessage):
-        self.callback(message)
+        try:
+            self.callback(message)
+        except Exception:
+            logger.exception("TCP: error while processing message from server")
 
     def send_message(self, message: IndiMessage):
         data = message.to_string()
